@@ -95,6 +95,10 @@ def run(ctx):
         singles.append("import qmluic.QtWidgets\nQWidget {\n    QLineEdit { id: srcS }\n    QCheckBox { id: srcB }\n    QSpinBox { id: srcI }\n    QVBoxLayout {\n        %s {\n            %s\n        }\n    }\n}\n" % (cls, b))
     for b in ("text: srcS.text", "separator: srcB.checked", "separator: true", "checkable: srcB.checked", "onTriggered: srcS.clear()"):
         singles.append("import qmluic.QtWidgets\nQWidget {\n    QLineEdit { id: srcS }\n    QCheckBox { id: srcB }\n    QAction {\n        id: act\n        %s\n    }\n}\n" % b)
+    # the same documents with something that draws a WARNING (a versioned import, a return type on a handler function): a warning changes nothing else
+    singles += [x.replace("import qmluic.QtWidgets\n", "import qmluic.QtWidgets 6.2\n", 1) for x in list(singles)]
+    singles.append("import qmluic.QtWidgets\nQWidget {\n    QLineEdit { id: srcS }\n    QPushButton {\n        onClicked: function(): void { srcS.clear() }\n    }\n}\n")
+    singles.append("import qmluic.QtWidgets\nQWidget {\n    QLineEdit { id: srcS }\n    QLabel { text: srcS.text }\n    QPushButton {\n        onClicked: function(): void { srcS.clear() }\n    }\n}\n")
     for _ in singles:
         ctx.dist("single-binding")
     corpus = D.corpus()
